@@ -318,8 +318,8 @@ def voc_c():
 def voc_cfast():
     """pixman-fast-path.c: the opaque combine32.h primitives plus the format converters (bit layout decided by C02-R6/C10)"""
     V, A, PR = voc_c()
-    V['convert_8888_to_0565'] = V['convert_0565_to_0888'] = V['convert_8888_to_8888'] = V['convert_x888_to_8888'] = lambda ex, c, a: ex.val(a[0])
-    V['convert_0565_to_8888'] = lambda ex, c, a: ex.opaque(ex.val(a[0]))
+    V['convert_8888_to_0565'] = V['convert_0565_to_0888'] = V['convert_8888_to_8888'] = lambda ex, c, a: ex.val(a[0])
+    V['convert_0565_to_8888'] = V['convert_x888_to_8888'] = lambda ex, c, a: ex.opaque(ex.val(a[0]))
     V['fetch_24'] = lambda ex, c, a: ex.load_ptr(ex.val(a[0]))
     V['store_24'] = lambda ex, c, a: ex.store_ptr(ex.val(a[0]), ex.val(a[1]))
     return V, A, PR
@@ -1412,7 +1412,7 @@ def r10_composite_bodies(ck, P):
                         vals = [v for r, v in writes if r == 'd']
                         if vals:
                             wrote = True
-                        for a2, got, n2 in _expand_cases(vals[-1] if vals else D):
+                        for a2, got, n2 in [c_ for v_ in (vals or [D]) for c_ in _expand_cases(v_)]:
                             sub = dict(base); sub.update(assum); sub.update(a2)
                             if got is None or not _is_expr(got):
                                 raise Unknown('a value written is not expressible in the helper vocabulary')
@@ -1511,3 +1511,121 @@ def r10f_simd_fetchers(ck, P, rid='C10-R8'):
                 ck.ok(R, '%s[%d] %s (%s): %d written values, all opaque copies of the source' % (g['name'], idx, fn, names.get(e['format']), nl))
     if skipped:
         ck.note('%s not analysed: %s' % (rid, skipped))
+
+
+def _scanline_callees(u, F, depth=3):
+    """scanline helpers (not the *_wrapper thunks) that a scaled fast-path main function reaches through direct calls"""
+    out = []; seen = set(); work = [(F, 0)]
+    while work:
+        f, d = work.pop()
+        if f.name in seen or d > depth:
+            continue
+        seen.add(f.name)
+        for c in f.calls():
+            g = u.functions.get(c.callee) if isinstance(c.callee, str) else None
+            if g is None:
+                continue
+            if 'scanline' in g.name and not g.name.endswith('_wrapper'):
+                out.append(g)
+            else:
+                work.append((g, d + 1))
+    return out
+
+
+def r10s_scaled_scanlines(ck, P):
+    """the per-scanline kernels of the scaled nearest-neighbour fast paths"""
+    P0 = P
+    R = ck.rule('C02-R10s', 'the scanline kernels of the scaled nearest-neighbour fast paths (SSE2, MMX and the portable C ones) write, in every pixel loop and on every shortcut branch, the Porter-Duff result of the operator and formats of the table entries whose main loop calls them (the source pixel is whichever one the stepping selects; its position is C08\'s concern)', floor=39)
+    from . import tables
+    C = __import__('pxv.consts', fromlist=['x']).fast_path_flags()
+    ops, N = algebra.operators(P)
+    inv = {v: k for k, v in ops.items()}
+    names = tables.format_names(P)
+    any_, solid, null = C['PIXMAN_any'], C['PIXMAN_solid'], C['PIXMAN_null']
+    done = {}; skipped = {}
+    analysed = 0
+    for u, g, t in tables.composite_tables(P0):
+        if u.name not in ('pixman-mmx.c', 'pixman-sse2.c', 'pixman-fast-path.c'):
+            continue
+        if u.name == 'pixman-fast-path.c':
+            P, u, loops = derive_combine32(P0, 'pixman-fast-path.c'); voc = voc_cfast()
+        else:
+            P = P0; voc = voc_sse2() if u.name == 'pixman-sse2.c' else voc_mmx(); loops = _loops_of(u)
+        for idx, e in enumerate(t):
+            fn = tables.fname(e['func'])
+            F = u.functions.get(fn) if fn else None
+            if F is None or e['op'] not in inv or inv[e['op']] not in algebra.ORACLE or 'scaled_nearest' not in fn:
+                continue
+            opname = inv[e['op']]
+            if e['src_format'] in (any_,) or e['dest_format'] == any_:
+                continue
+            has_mask = e['mask_format'] != null
+            ca = bool(e['mask_flags'] & C['FAST_PATH_COMPONENT_ALPHA'])
+            src_noalpha = e['src_format'] != solid and tables.fmt_info(e['src_format'])['a'] == 0
+            dst_noalpha = tables.fmt_info(e['dest_format'])['a'] == 0
+            msk_fmt = e['mask_format']
+            for sf in _scanline_callees(u, F):
+                key = (u.name, sf.name, opname, has_mask, src_noalpha, dst_noalpha, msk_fmt == solid)
+                if key in done:
+                    continue
+                E = expected(opname, ca)
+                if E is None:
+                    continue
+                base = {}; fmt_sub = {}
+                if src_noalpha:
+                    fmt_sub[S] = force_opaque(S); fmt_sub[SA] = sympy.Integer(1)
+                if dst_noalpha:
+                    fmt_sub[D] = force_opaque(D); fmt_sub[DA] = sympy.Integer(1)
+                if has_mask and msk_fmt != solid and tables.fmt_info(msk_fmt)['type'] == 1:
+                    base.update(_gens(M - MA))
+                Es = E
+                if has_mask and not ca:
+                    Es = sympy.expand(E.subs({S: S * MA, SA: SA * MA}, simultaneous=True))
+                if fmt_sub:
+                    Es = sympy.expand(Es.subs(fmt_sub, simultaneous=True))
+                argvals = []
+                for pn, pt in sf.params:
+                    role = {'pd': 'd', 'dst': 'd', 'ps': 's', 'src': 's', 'pm': 'm', 'mask': 'm'}.get(pn or '')
+                    argvals.append(Ptr(role) if (role and pt.endswith('*')) else None)
+                if not any(isinstance(a, Ptr) and a.role == 'd' for a in argvals) or not any(isinstance(a, Ptr) and a.role == 's' for a in argvals):
+                    done[key] = 'skip'; skipped[sf.name] = 'parameters dst/src not recognised'; continue
+                probs = []; nl = 0
+                try:
+                    ls = [L for L in loops.get(sf.name, []) if L['parent'] == -1]       # the pixel loops of a scanline kernel are its top-level loops (coordinate wrapping loops nest inside)
+                    if not ls:
+                        raise Unknown('no pixel loop')
+                    for L in ls:
+                        ex = RExec(P, u, voc, has_mask); ex.loop_header = None; ex.base = base; ex.mask_bits = False
+                        ex.solid_syms = ({M, MA} if msk_fmt == solid else set())
+                        pre = ex.prefix_states(sf, argvals, L['header'])
+                        ex = RExec(P, u, voc, has_mask); ex.loop_header = L['header']; ex.base = base; ex.mask_bits = False
+                        ex.init_states = pre
+                        res = ex.run_paths(sf, argvals, region=set(L['blocks']), start=L['header'])
+                        wrote = False
+                        for assum, rv, writes, notes, _m in res:
+                            vals = [v for r, v in writes if r == 'd']
+                            if vals:
+                                wrote = True
+                            for a2, got, n2 in [c_ for v_ in (vals or [D]) for c_ in _expand_cases(v_)]:
+                                sub = dict(base); sub.update(assum); sub.update(a2)
+                                if got is None or not _is_expr(got):
+                                    raise Unknown('a value written is not expressible in the helper vocabulary')
+                                ch = [{ACH: 0}] if dst_noalpha else [{ACH: 0}, ALPHA]
+                                pairs = [(sympy.expand(got).subs(c_, simultaneous=True), sympy.expand(Es).subs(c_, simultaneous=True)) for c_ in ch]
+                                if not all(vanishes(g_ - w_, sub) or _saturated(g_, w_, sub) for g_, w_ in pairs):
+                                    if notes or n2:
+                                        raise Unknown('shortcut under a condition the rule does not interpret')
+                                    probs.append('%s (loop at block %s) writes %s%s; %s%s requires %s' % (sf.name, L['header'], got, (' when ' + _asm(sub)) if sub else '', opname, ' with a unified mask' if has_mask and not ca else '', sympy.expand(Es.subs(ACH, 0))))
+                        if wrote:
+                            nl += 1
+                    if nl == 0:
+                        raise Unknown('no loop writes the destination')
+                except Unknown as ex_:
+                    done[key] = 'skip'; skipped[sf.name] = str(ex_)[:80]; continue
+                done[key] = 'ok'; analysed += 1; ck.saw(sf)
+                where = '%s[%d] %s -> %s (%s %s, mask %s -> %s)' % (g['name'], idx, fn, sf.name, opname, names.get(e['src_format']), names.get(msk_fmt, 'solid' if msk_fmt == solid else 'none'), names.get(e['dest_format']))
+                if probs:
+                    ck.violation(R, sf.name, 'scanline kernel of %s for %s' % (sf.name, opname), probs[0], '%s table %s entry %d' % (u.name, g['name'], idx))
+                else:
+                    ck.ok(R, where)
+    ck.note('C02-R10s: %d scanline kernel/operator/format combinations analysed; not analysable: %s' % (analysed, skipped))
